@@ -5,8 +5,11 @@ import json, os, sys
 REPO = '/repo'
 OUT = '/verif/controls'
 C = []
-def ctl(name, prop, rule, file, old, new, expect, note=''):
-    C.append(dict(name=name, property=prop, rule=rule, file=file, old=old, new=new, expect=expect, note=note))
+def ctl(name, prop, rule, file, old, new, expect, note='', edits=None):
+    d = dict(name=name, property=prop, rule=rule, file=file, old=old, new=new, expect=expect, note=note)
+    if edits:
+        d['edits'] = edits
+    C.append(d)
 
 RT = 'websocket/realtime.go'
 # ---- C04 answers
@@ -862,6 +865,183 @@ ctl('e3-module-delete-unconditional', 'C04', 'E3', VJ,
 		m.state.RemoveEntityActions(req.EntityId)
 	}""",
     """	m.state.RemoveEntityActions(req.EntityId)""", 'handleEntityDelete')
+
+
+SL = 'models/signed_latency.go'
+# ---- auth
+ctl('i6-handshake-removed', 'C15', 'I6', 'cmd/main.go',
+    """		Handshake: hagallhttp.VerifyAuthToken(ctx, hdsClient),
+""", "", 'relay-server-handshake')
+ctl('i6-smoke-test-unwrapped', 'C15', 'I6', 'cmd/main.go',
+    """	service.HandleFunc("/smoke-test", hagallhttp.VerifyAuthTokenHandler(hdsClient, smoketest.HandleSmokeTest(ctx, smoketest.Options{""",
+    """	service.HandleFunc("/smoke-test", passthrough(hdsClient, smoketest.HandleSmokeTest(ctx, smoketest.Options{""", 'smoke-test-wrapped',
+    'the smoke test mounted behind a wrapper that does not check the token',
+    edits=[dict(file='cmd/main.go', old='func pairWithHDS(', new='func passthrough(_ *hds.Client, h http.HandlerFunc) func(http.ResponseWriter, *http.Request) {\n\treturn h\n}\n\nfunc pairWithHDS(')])
+ctl('i6-error-ignored-for-empty-token', 'C15', 'I6', 'http/auth.go',
+    """			logs.WithClientID(r.Header.Get(httpcmn.HeaderPosemeshClientID)).Warn(err)
+			return err
+		}""",
+    """			logs.WithClientID(r.Header.Get(httpcmn.HeaderPosemeshClientID)).Warn(err)
+			if token != "" {
+				return err
+			}
+		}""", 'VerifyAuthToken:gate')
+ctl('i6-handler-calls-next-anyway', 'C15', 'I6', 'http/auth.go',
+    """			w.WriteHeader(http.StatusUnauthorized)
+			return
+		}""",
+    """			w.WriteHeader(http.StatusUnauthorized)
+		}""", 'VerifyAuthTokenHandler:gate')
+ctl('i6-token-from-elsewhere', 'C15', 'I6', 'http/auth.go',
+    """func VerifyAuthTokenHandler(hdsClient *hds.Client, next http.HandlerFunc) func(http.ResponseWriter, *http.Request) {
+	return func(w http.ResponseWriter, r *http.Request) {
+		token := httpcmn.GetUserTokenFromHTTPRequest(r)""",
+    """func VerifyAuthTokenHandler(hdsClient *hds.Client, next http.HandlerFunc) func(http.ResponseWriter, *http.Request) {
+	return func(w http.ResponseWriter, r *http.Request) {
+		token := r.Header.Get("X-Access-Token")""", 'VerifyAuthTokenHandler:gate')
+# ---- receipts
+ctl('i5-blocking-submit', 'C19', 'I5', RT,
+    """	select {
+	case h.ReceiptChan <- payload:
+		respond.Send(&hagallpb.ReceiptResponse{
+			Type:      hagallpb.MsgType_MSG_TYPE_RECEIPT_RESPONSE,
+			Timestamp: timestamppb.Now(),
+			RequestId: req.RequestId,
+		})
+	default:
+		//discard - failsafe if disk is full or whatever
+		respond.Send(&hagallpb.ErrorResponse{
+			Type:      hagallpb.MsgType_MSG_TYPE_ERROR_RESPONSE,
+			Timestamp: timestamppb.Now(),
+			RequestId: req.RequestId,
+			Code:      hagallpb.ErrorCode_ERROR_CODE_SERVER_TOO_BUSY,
+		})
+	}
+""",
+    """	h.ReceiptChan <- payload
+	respond.Send(&hagallpb.ReceiptResponse{
+		Type:      hagallpb.MsgType_MSG_TYPE_RECEIPT_RESPONSE,
+		Timestamp: timestamppb.Now(),
+		RequestId: req.RequestId,
+	})
+""", 'never-blocks')
+ctl('i5-payload-altered', 'C19', 'I5', RT,
+    """		Hash:      req.GetHash(),
+		Signature: req.GetSignature(),""",
+    """		Hash:      req.GetSignature(),
+		Signature: req.GetHash(),""", 'payload-unchanged')
+ctl('i5-invalid-forwarded', 'C19', 'I5', 'receipt/handler.go',
+    """						Wrap(err))
+
+				} else {
+					rh.ForwardToNCS(ctx, payload)
+				}""",
+    """						Wrap(err))
+				}
+				rh.ForwardToNCS(ctx, payload)""", 'invalid-never-forwarded')
+ctl('i5-hash-check-dropped', 'C19', 'I5', 'receipt/handler.go',
+    """	if !bytes.Equal(hash.Bytes(), payload.Hash) {
+		return errors.New("failed to verify receipt hash")
+	}
+""",
+    """	_ = bytes.Equal(hash.Bytes(), payload.Hash)
+""", 'VerifyPayload:hash')
+ctl('i5-forward-retries', 'C19', 'I5', 'receipt/handler.go',
+    """		if err := instrumentReceiptSend(rh.NCSEndpoint, func() error {
+			return client.PostReceipt(ctx, payload)
+		}); err != nil {
+			logs.Warn(errors.New("forward to network credit service failed").Wrap(err))
+		}""",
+    """		for i := 0; i < 3; i++ {
+			if err := instrumentReceiptSend(rh.NCSEndpoint, func() error {
+				return client.PostReceipt(ctx, payload)
+			}); err != nil {
+				logs.Warn(errors.New("forward to network credit service failed").Wrap(err))
+			}
+		}""", 'ForwardToNCS:once')
+# ---- signed latency report
+ctl('i4-replay-accepted', 'C18', 'I4', SL,
+    """	if !pingRequest.End.IsZero() {
+		return errors.New("ping request already answered")
+	}
+""", "", 'answered-once', 'the defect fixed in OnPing, re-introduced')
+ctl('i3-last-from-map-order', 'C18', 'I3', SL,
+    """	last = float32(pingRequest.End.Sub(pingRequest.Start).Microseconds())""",
+    """	last = latencies[len(latencies)-1]""", 'positional-read[latencies]', 'the defect fixed in OnPing, re-introduced')
+ctl('i1-signs-other-bytes', 'C18', 'I1', SL,
+    """	signature, err := crypto.Sign(crypto.Keccak256Hash(data).Bytes(), s.privateKey)""",
+    """	signature, err := crypto.Sign(crypto.Keccak256Hash([]byte(s.SessionID)).Bytes(), s.privateKey)""", 'signs-what-it-sends')
+ctl('i2-report-names-other-client', 'C18', 'I2', SL,
+    """		ClientId:       s.ClientID,""",
+    """		ClientId:       s.SessionID,""", 'bound-fields')
+ctl('i4-round-counted-twice', 'C18', 'I4', SL,
+    """	pingRequest.End = time.Now()
+	s.Iteration--""",
+    """	pingRequest.End = time.Now()
+	s.Iteration -= 2""", 'OnPing')
+ctl('i2-ping-id-not-recorded', 'C18', 'I2', SL,
+    """	pingReqID := uint32(time.Now().UnixNano())
+	s.PingRequests[pingReqID] = LatencyMetricsData{""",
+    """	pingReqID := uint32(time.Now().UnixNano())
+	s.PingRequests[pingReqID+1] = LatencyMetricsData{""", 'id-recorded')
+# ---- dagaz
+ctl('g3-row-clamp-into-column', 'C08', 'G3', 'modules/dagaz/grid_spatial_partition.go',
+    """		cellY = (uint)(math.Min((float64)(cellY), (float64)(len(grid.Grid)-1)))""",
+    """		cellX = (uint)(math.Min((float64)(cellY), (float64)(len(grid.Grid)-1)))""", 'IntersectQuad', 'the defect fixed in IntersectQuad, re-introduced')
+# ---- ids / registry / silent drops / flag set
+ctl('d5-asset-id-from-set-size', 'C10', 'D5', 'modules/odal/state.go',
+    """	return s.assetInstanceIDs.New()""",
+    """	s.assetMutex.RLock()
+	defer s.assetMutex.RUnlock()
+	return uint32(len(s.assetInstances) + 1)""", 'NewAssetInstanceID')
+ctl('d2-owner-reassigned', 'C05', 'D2', RT,
+    """	session.AddEntity(entity)
+	participant.AddEntity(entity)
+""",
+    """	session.AddEntity(entity)
+	participant.AddEntity(entity)
+	if req.Persist {
+		entity.ParticipantID = 0
+	}
+""", 'Entity.ParticipantID')
+ctl('e7-lenient-lookup', 'C03', 'E7', SE,
+    """	session, ok := s.sessions[v]
+	return session, ok""",
+    """	session, ok := s.sessions[strings.TrimSpace(v)]
+	return session, ok""", 'GetByGlobalID', 'lenient lookup: ids that merely resemble a live id resolve',
+    edits=[dict(file='models/session.go', old='import (\n\t"context"\n\t"fmt"\n', new='import (\n\t"context"\n\t"fmt"\n\t"strings"\n')])
+ctl('e7-id-released-outside-lock', 'C07', 'E7', SE,
+    """	delete(s.sessions, s.GlobalSessionID(session.ID))
+	session.Close()
+
+	s.ids.Reuse(session.ID)
+
+	instrumentDecreaseSessionGauge(session.AppKey)
+}""",
+    """	delete(s.sessions, s.GlobalSessionID(session.ID))
+	session.Close()
+	s.mutex.Unlock()
+
+	s.ids.Reuse(session.ID)
+
+	instrumentDecreaseSessionGauge(session.AppKey)
+	s.mutex.Lock()
+}""", 'Remove:one-critical-section')
+ctl('b7-unchanged-pose-not-relayed', 'C02', 'B7', RT,
+    """	if update.Pose == nil {
+		return nil
+	}
+""",
+    """	if update.Pose == nil {
+		return nil
+	}
+	if entity.Pose().PX == update.Pose.Px && entity.Pose().PY == update.Pose.Py && entity.Pose().PZ == update.Pose.Pz {
+		return nil
+	}
+""", 'HandleEntityUpdatePose:silent-drop')
+ctl('c4g-flag-names-normalised', 'C17', 'C4g', 'featureflag/featureflag.go',
+    """		featureFlag[Flag(f)] = struct{}{}""",
+    """		featureFlag[Flag(f+"")[0:len(f)]] = struct{}{}""", 'New:verbatim')
 
 os.makedirs(OUT, exist_ok=True)
 bad = 0
